@@ -443,7 +443,7 @@ func runC17Common(cx *CheckCtx, w *World) {
 					okPurge, whyPurge = false, "the result is not a constant per path"
 					continue
 				}
-				if !constant.BoolVal(c.Value) && !viaEdge(b, 1-side, rb) {
+				if !constant.BoolVal(c.Value) && !guardedBy(b, 1-side, rb) {
 					okPurge, whyPurge = false, "'ballots in progress' is answered on the expired side of the window test"
 				}
 				if constant.BoolVal(c.Value) {
@@ -453,7 +453,9 @@ func runC17Common(cx *CheckCtx, w *World) {
 						continue
 					}
 					for _, e := range loopExits(h) {
-						if e.from != h && blockReaches(e.to, rb, nil) {
+						if e.from != h && blockReaches(e.to, rb, nil) && !purgeBehindFlag(h, b, side, rb) {
+							// (in the flag form the break shares its target with exhaustion; the purge then
+							// has to sit on the expired-only side of the flag test)
 							okPurge, whyPurge = false, "the purge can be reached before every ballot was found expired"
 						}
 					}
@@ -1072,4 +1074,17 @@ func expiredSide(t *Term) (int, bool) {
 		return 1, true
 	}
 	return 0, false
+}
+
+// purgeBehindFlag: the flag form of TryPurgeVotes — "a live ballot was met" is
+// remembered in a flag (false only from exhaustion, true only from the alive
+// side of the window test) and the purge sits on the false side of its test.
+func purgeBehindFlag(h, winIf *ssa.BasicBlock, expiredSide int, purge *ssa.BasicBlock) bool {
+	var done *ssa.BasicBlock
+	for _, s := range h.Succs {
+		if !loopBlocks(h)[s] {
+			done = s
+		}
+	}
+	return done != nil && flagGuard(h, done, purge, winIf.Succs[1-expiredSide])
 }
